@@ -172,6 +172,6 @@ def check_charts(ctx: Ctx, case) -> None:
 PARTS: list[Part] = [
     hyp_part("maps", strat_maps, check_maps, {"quick": 300, "thorough": 6000},
              {"quick": 6, "thorough": 16}),
-    hyp_part("charts", strat_charts, check_charts, {"quick": 200, "thorough": 4000},
+    hyp_part("charts", strat_charts, check_charts, {"quick": 350, "thorough": 4000},
              {"quick": 6, "thorough": 16}),
 ]
